@@ -571,6 +571,14 @@ func (c cfgv) coq() string {
 	return fmt.Sprintf("(Cfg %s %s %s true true)", cs("test"), csOptList(c.setRes), csOptList(c.setAcc))
 }
 
+type pendReq struct {
+	script []ract
+	wire   []byte // payload as sent on the wire
+	reply  string
+}
+
+func reqKey(rtype, rname, method string) string { return rtype + "." + rname + "." + method }
+
 type env struct {
 	cfg      cfgv
 	s        *res.Service
@@ -580,10 +588,8 @@ type env struct {
 	nreply   int
 	ctxs     map[string]string // reply subject -> Coq ctx term
 	curApply applyv
-	curReq   []ract // script for the next request handler invocation
-	curWire  []byte // payload of that request as sent on the wire
-	curReply string
-	seen     []string // Coq terms (reply, (IsHTTP, CID)) as observed by the handlers
+	pending  map[string]*pendReq // type.resource.method -> what the handler of that request runs / must observe
+	seen     []string            // Coq terms (reply, (IsHTTP, CID)) as observed by the handlers
 	curQuery []qact
 	qmu      sync.Mutex
 	impl     []string
@@ -614,7 +620,9 @@ func init() {
 
 const waitFor = 10 * time.Second
 
-func (e *env) hit(k string) { e.dist[k]++ }
+var hitMu sync.Mutex
+
+func (e *env) hit(k string) { hitMu.Lock(); e.dist[k]++; hitMu.Unlock() }
 
 // resource patterns: name -> Coq restype
 func restypeOf(rname string) string {
@@ -637,10 +645,16 @@ func (e *env) start() {
 		s.SetOwnedResources(e.cfg.setRes, e.cfg.setAcc)
 	}
 	run := func(r *res.Request) {
-		e.checkObserved(r)
-		script := e.curReq
-		for i := range script {
-			script[i].do(e, r)
+		e.qmu.Lock()
+		p := e.pending[reqKey(r.Type(), r.ResourceName(), r.Method())]
+		e.qmu.Unlock()
+		if p == nil {
+			e.impl = append(e.impl, "handler called for a request the harness did not send: "+reqKey(r.Type(), r.ResourceName(), r.Method()))
+			return
+		}
+		e.checkObserved(r, p)
+		for i := range p.script {
+			p.script[i].do(e, r)
 		}
 	}
 	for _, p := range []struct {
@@ -726,14 +740,14 @@ type wireReq struct {
 
 // checkObserved reports request fields the handler sees that differ from the request as sent
 // (e.g. state leaking from an earlier request on the same service).
-func (e *env) checkObserved(r *res.Request) {
+func (e *env) checkObserved(r *res.Request, p *pendReq) {
 	var w wireReq
-	if len(e.curWire) > 0 {
-		if err := json.Unmarshal(e.curWire, &w); err != nil {
+	if len(p.wire) > 0 {
+		if err := json.Unmarshal(p.wire, &w); err != nil {
 			return
 		}
 	}
-	e.seen = append(e.seen, fmt.Sprintf("(%s,(%s,%s))", cs(e.curReply), Bool(r.IsHTTP()), cs(sanitize(r.CID()))))
+	e.seen = append(e.seen, fmt.Sprintf("(%s,(%s,%s))", cs(p.reply), Bool(r.IsHTTP()), cs(sanitize(r.CID()))))
 	var diff []string
 	chk := func(name string, got, want interface{}) {
 		if !reflect.DeepEqual(got, want) {
@@ -753,7 +767,7 @@ func (e *env) checkObserved(r *res.Request) {
 	chk("Query", r.Query(), w.Query)
 	if len(diff) > 0 {
 		e.tags["request-field-leak"] = true
-		e.impl = append(e.impl, "handler observes request fields that differ from the request as sent on the wire: "+strings.Join(diff, ", ")+" payload="+strconv.Quote(string(e.curWire)))
+		e.impl = append(e.impl, "handler observes request fields that differ from the request as sent on the wire: "+strings.Join(diff, ", ")+" payload="+strconv.Quote(string(p.wire)))
 	}
 }
 
@@ -1089,13 +1103,14 @@ type top struct {
 func tStart() top { return top{"Start", konst("TStart"), func(e *env) {}} }
 
 type reqv struct {
-	rtype  string // access get call auth
-	rname  string
-	method string
-	http   bool
-	cid    string
-	raw    []byte // payload override (nil = built from the fields)
-	keys   []string // optional payload fields to write (nil = legacy: all of cid, isHttp, token, params);
+	rtype   string // access get call auth
+	rname   string
+	method  string
+	http    bool
+	cid     string
+	raw     []byte   // payload override (nil = built from the fields)
+	noReply bool     // delivered WITHOUT a reply subject (must be followed by a probe request on the same resource)
+	keys    []string // optional payload fields to write (nil = legacy: all of cid, isHttp, token, params);
 	// with keys set, "isHttp" is written only if http is true or "isHttp" is listed, "cid" only if listed
 	disp   string // Coq dispatch term when not DRun
 	script []ract
@@ -1115,6 +1130,9 @@ func tRequest(q reqv) top {
 			} else if q.keys != nil {
 				wire = " fields=" + strings.Join(q.keys, ",")
 			}
+			if q.noReply {
+				wire += " NO-REPLY-SUBJECT"
+			}
 			return fmt.Sprintf("%s %s http=%v%s %s[%s]", q.rtype, q.rname, q.http, wire, q.disp, strings.Join(n, "; "))
 		}(),
 		func() string {
@@ -1133,8 +1151,13 @@ func tRequest(q reqv) top {
 			if q.http {
 				e.hit("request:http")
 			}
-			reply = e.newReply("REPLY")
-			e.ctxs[reply] = fmt.Sprintf("(CReply %s %s)", Bool(q.http), cs(reply))
+			if q.noReply {
+				e.hit("request:no-reply-subject")
+				e.nreply++
+			} else {
+				reply = e.newReply("REPLY")
+				e.ctxs[reply] = fmt.Sprintf("(CReply %s %s)", Bool(q.http), cs(reply))
+			}
 			subj := q.rtype + "." + q.rname
 			if q.rtype == "call" || q.rtype == "auth" {
 				subj += "." + q.method
@@ -1178,9 +1201,19 @@ func tRequest(q reqv) top {
 				}
 				data, _ = json.Marshal(m)
 			}
-			e.curReq = q.script
-			e.curWire = data
-			e.curReply = reply
+			meth := ""
+			if q.rtype == "call" || q.rtype == "auth" {
+				meth = q.method
+			}
+			e.qmu.Lock()
+			e.pending[reqKey(q.rtype, q.rname, meth)] = &pendReq{q.script, data, reply}
+			e.qmu.Unlock()
+			if q.noReply {
+				// dropped by handleRequest without any completion note: not waited for; the probe request
+				// that follows on the same resource (same worker queue) is the barrier
+				e.conn.inCh <- &nats.Msg{Subject: subj, Reply: "", Data: data}
+				return
+			}
 			ch := make(chan struct{})
 			doneMu.Lock()
 			doneCh[subj] = ch
@@ -1330,7 +1363,7 @@ type desc struct {
 }
 
 func runCase(idx int, d desc, cd caseDef, dist map[string]int) (Case, []ImplViolation) {
-	e := &env{cfg: cd.cfg, idx: idx, ctxs: map[string]string{}, tags: map[string]bool{}, dist: dist}
+	e := &env{cfg: cd.cfg, idx: idx, ctxs: map[string]string{}, tags: map[string]bool{}, dist: dist, pending: map[string]*pendReq{}}
 	e.start()
 	for i := range cd.tops {
 		cd.tops[i].run(e)
@@ -1497,8 +1530,8 @@ func directed() []caseDef {
 		for _, rn := range rnames {
 			add(def, tRequest(reqv{rtype: rt, rname: rn, method: "m", http: rt != "get", cid: "c", script: []ract{aOK(goods[2])}}))
 		}
-		add(def, tRequest(reqv{rtype: rt, rname: "test.model.1", method: "m", script: nil}))                     // missing response
-		add(def, tRequest(reqv{rtype: rt, rname: "test.nomatch.at.all", method: "m", disp: "DNoMatch"}))        // no handler
+		add(def, tRequest(reqv{rtype: rt, rname: "test.model.1", method: "m", script: nil}))             // missing response
+		add(def, tRequest(reqv{rtype: rt, rname: "test.nomatch.at.all", method: "m", disp: "DNoMatch"})) // no handler
 		for _, raw := range []string{"{", "nulx", "{\"cid\":1,}", "\"é", "[1 2]"} {
 			add(def, tRequest(reqv{rtype: rt, rname: "test.model.1", method: "m", raw: []byte(raw), disp: "(DBadJson " + cs(syntaxErr(raw)) + ")"}))
 		}
@@ -1909,6 +1942,7 @@ func seqCase(seed uint64) caseDef {
 		http := rt != "get" && (i == 0 || r.Chance(30))
 		q := reqv{rtype: rt, rname: rnames[r.Intn(len(rnames))], method: r.Pick([]string{"set", "new", "m"}), http: http, cid: "cid" + strconv.Itoa(r.Intn(100))}
 		pickWire(r, &q, false)
+		q.noReply = r.Chance(10)
 		if r.Chance(75) {
 			q.script = pickMetaScript(r, http)
 		} else {
@@ -1917,27 +1951,77 @@ func seqCase(seed uint64) caseDef {
 			}
 		}
 		ts = append(ts, tRequest(q))
+		if q.noReply {
+			ts = append(ts, probe(q.rname))
+		}
 	}
 	return caseDef{cfgv{}, ts}
 }
 
-func directedSeqs() []caseDef {
+// probe: an ordinary request on the same resource (= same worker queue) right after a request without
+// reply subject; when it is answered, whatever the service did with the earlier request is over
+func probe(rname string) top {
+	return tRequest(reqv{rtype: "call", rname: rname, method: "probe", cid: "cidP", script: []ract{aOK(goods[1])}})
+}
+
+// requests of every type delivered without a reply subject, handlers doing every kind of action:
+// the unchanged code drops them (handler not run); nothing may ever be published on the subject ""
+func noReplyCases() []caseDef {
 	var out []caseDef
+	scripts := []func() []ract{
+		func() []ract { return []ract{aTimeout(1500 * time.Millisecond), aOK(goods[2])} },
+		func() []ract { return []ract{aOK(goods[22])} },
+		func() []ract { return []ract{aError(errarg{kind: 1, e: errvs()[0]})} },
+		func() []ract { return []ract{aNotFound()} },
+		func() []ract { return nil },
+		func() []ract { return []ract{aW(wPanic(pkv{kind: 3, msg: "boom"}))} },
+		func() []ract { return []ract{aTimeout(0), aW(wPanic(pkv{kind: 1}))} },
+		func() []ract {
+			return []ract{aW(wCustom("custom", goods[22])), aW(wReaccess()), aW(wResetEvent()), aOK(goods[0])}
+		},
+		func() []ract {
+			return []ract{aStatusIfHTTP(201), aHeader("Location", []string{"/x"}), aTimeout(time.Second), aResource("test.model.2")}
+		},
+		func() []ract { return []ract{aOK(bads[0])} },
+		func() []ract { return []ract{aTimeout(time.Hour), aTimeout(1), aModel(goods[17], "")} },
+		func() []ract { return []ract{aOK(goods[1]), aTimeout(time.Second)} },
+	}
+	for _, rt := range []string{"access", "get", "call", "auth"} {
+		for si, sc := range scripts {
+			rn := rnames[si%len(rnames)]
+			q := reqv{rtype: rt, rname: rn, method: "m", http: rt != "get" && si%2 == 0, cid: "cidN", noReply: true, script: sc()}
+			if rt == "auth" && si == 3 {
+				q.script = []ract{aToken(goods[22]), aTimeout(time.Second), aOK(goods[0])}
+			}
+			out = append(out, caseDef{cfgv{}, []top{tStart(), tRequest(q), probe(rn)}})
+		}
+		// no handler / bad payload / unknown resource without reply subject
+		out = append(out, caseDef{cfgv{}, []top{tStart(), tRequest(reqv{rtype: rt, rname: "test.nomatch.x", method: "m", noReply: true, disp: "DNoMatch"}), probe("test.model.1")}})
+		out = append(out, caseDef{cfgv{}, []top{tStart(), tRequest(reqv{rtype: rt, rname: "test.model.1", method: "m", noReply: true, raw: []byte("{"), disp: "(DBadJson " + cs(syntaxErr("{")) + ")"}), probe("test.model.1")}})
+		out = append(out, caseDef{cfgv{}, []top{tStart(), tRequest(reqv{rtype: rt, rname: "test.bare.1", method: "other", noReply: true, disp: "DNoMethod"}), tRequest(reqv{rtype: "call", rname: "test.bare.1", method: "foo", cid: "c", script: nil, disp: "(DRun [AReply (KOK HNil)])"})}})
+	}
+	return out
+}
+
+func directedSeqs() []caseDef {
+	out := noReplyCases()
 	firstTypes := []string{"call", "auth", "access"}
 	wires := []func(q *reqv){
-		func(q *reqv) { q.keys = []string{"cid"} },                     // isHttp absent
-		func(q *reqv) { q.keys = []string{"cid", "token", "params"} },  // isHttp absent, other fields
+		func(q *reqv) { q.keys = []string{"cid"} },                    // isHttp absent
+		func(q *reqv) { q.keys = []string{"cid", "token", "params"} }, // isHttp absent, other fields
 		func(q *reqv) { q.raw, q.cid = []byte(""), "" },               // empty payload
 		func(q *reqv) { q.raw, q.cid = []byte("null"), "" },           // null
 		func(q *reqv) { q.raw, q.cid = []byte("{}"), "" },             // empty object
-		func(q *reqv) { q.keys = []string{"cid", "isHttp"} },           // explicit "isHttp":false
+		func(q *reqv) { q.keys = []string{"cid", "isHttp"} },          // explicit "isHttp":false
 	}
 	handlers := []func() []ract{
 		func() []ract { return []ract{aStatusIfHTTP(201), aOK(goods[2])} },
 		func() []ract { return []ract{aHeaderIfHTTP("Location", []string{"/x"}), aOK(goods[0])} },
 		func() []ract { return []ract{aStatus(201), aOK(goods[2])} },
 		func() []ract { return []ract{aHeader("Location", []string{"/x"}), aNotFound()} },
-		func() []ract { return []ract{aStatusIfHTTP(404), aHeaderIfHTTP("X-A", []string{"1", "2"}), aAccess(true, "*")} },
+		func() []ract {
+			return []ract{aStatusIfHTTP(404), aHeaderIfHTTP("X-A", []string{"1", "2"}), aAccess(true, "*")}
+		},
 	}
 	k := 0
 	for wi, w := range wires {
@@ -2006,7 +2090,11 @@ func randomCase(seed uint64) caseDef {
 			for j, m := 0, r.Intn(6); j < m; j++ {
 				q.script = append(q.script, pickR(r, with, http, rt == "auth" && q.cid != ""))
 			}
+			q.noReply = r.Chance(8)
 			ts = append(ts, tRequest(q))
+			if q.noReply {
+				ts = append(ts, probe(q.rname))
+			}
 		case k < 7:
 			rn := rnames[r.Intn(len(rnames))]
 			var sc []wact
